@@ -90,6 +90,28 @@ PROPS["C20"] = dict(
     floor=dict(quick=300, thorough=3000),
 )
 
+PROPS["C06"] = dict(
+    level="exploration",
+    technique="rapidcheck stateful (model-based) testing of API call sequences on a connected pair with an invariant after every call, plus bounded exhaustive exploration of command sequences from handshake/data-phase snapshots with state-hash deduplication",
+    rule=("case = configuration (CBC-1.0/1.1, GCM, ChaCha20, CCM_8; client and server each shared / set_buffer-bidi / split buffers at minimum or "
+          "default size), start phase (after reset, after N scheduling rounds, established) and up to 90 generated API commands (sendapp+ack k, "
+          "recvapp_ack k, sendrec->wire k, wire->recvrec k with k in {1,2,half,all-1,all}; flush(0|1); close; renegotiate; ordinary pumping). "
+          "The invariant set is asserted after every engine call. non-trivial = sequence with >= 1 partial acknowledgement and >= 1 shared-buffer "
+          "mode switch or close/renegotiate; distinct = distinct hashes of the engine registers of both endpoints visited (random walks) and "
+          "distinct register states reached by the exhaustive explorer"),
+    assumptions=["only API-legal calls are generated (never ack 0, never more than offered)",
+                 "histories matching the two listed known findings are constructed away and counted (excluded_by_construction); directed probes replay them"],
+    targets=[dict(name="c06_state", src="c06_state.cpp", flavour="san", libs=SSL_LIBS, noseed=True),
+             dict(name="c19_sslio", src="c19_sslio.cpp", flavour="san", libs=SSL_LIBS, noseed=True)],
+    quick=[("c06_state", "enum", dict(shards=16)),
+           ("c06_state", "rc", dict(cases=32000, shards=12)),
+           ("c19_sslio", "rc", dict(cases=2400, shards=4))],
+    thorough=[("c06_state", "enum", dict(shards=16)),
+              ("c06_state", "rc", dict(cases=480000, shards=16)),
+              ("c19_sslio", "rc", dict(cases=60000, shards=16))],
+    floor=dict(quick=2000, thorough=20000),
+)
+
 # ---------------------------------------------------------------- manifest text
 HOOK_COMMITS = ["b37444c", "e1637c5"]
 NOT_APPLICABLE = {}
@@ -131,4 +153,14 @@ MANIFEST_TEXT["C20"] = dict(
           "whole transcripts. A second build with system seeders checks that reset then succeeds without injection."),
     design_ref="DESIGN.md section 4, C20",
     note="does not assess entropy quality; renegotiation histories are quiesced before the request (see C19 for arbitrary instants)",
+)
+
+MANIFEST_TEXT["C06"] = dict(
+    text=("Model-based stateful testing: random API histories with partial acknowledgements on both roles from every handshake phase, with the "
+          "full invariant set (state flags vs buffer queries, regions inside caller memory and not aliasing untaken bytes, closed exclusive and "
+          "permanent with first error kept, never state 0 while open, pure queries, partial-ack continuation, byte-exact delivery) checked after "
+          "every single call; plus exhaustive enumeration of all command sequences to depth 3 (quick) / 5 (thorough) from ~30 snapshots per "
+          "configuration. Exhaustive only to that depth."),
+    design_ref="DESIGN.md section 4, C06",
+    note="two known findings (F4, F5) are excluded by construction and replayed by directed probes; unbounded histories are sampled, not enumerated",
 )
